@@ -25,6 +25,7 @@ def two_builds(prop):
 
 PROPS = {"C01": c01, "C02": c02, "C03": two_builds("C03"), "C04": two_builds("C04"), "C08": two_builds("C08"),
          "C06": two_builds("C06"),
+         "C07": two_builds("C07"),
          "C10": lambda tier, dev: run_cs_property("C10", tier, [Campaign("C10", "plain")], assumptions=ASSUME_GENERIC, dev=dev),
          "C05": lambda tier, dev: run_cs_property("C05", tier, [Campaign("C05", "plain")], assumptions=ASSUME_GENERIC, dev=dev)}
 
